@@ -20,9 +20,9 @@ func init() {
 		Explanation: "Decided: R14-exhaust — every pattern-VM opcode constant is a case of recursiveVM's dispatch, every pattern node type parsePattern constructs is a case of compilePattern's type switch, and every repeat kind the parser produces has a compile arm (this is what makes the trailing 'should not reach here' unreachable); " +
 			"R14-panics — every explicit panic in package pm carries *pm.Error (Find re-panics anything else), the one raw panic is the exhaustiveness sentinel, and every pm.Find call site in the string library raises its error result; R14-depth — recursiveVM increments its level, tests it against maxRecursionLevel with a raising arm before any recursive call, and every recursive call passes the incremented level; " +
 			"R14-progress — Find's scan position strictly increases on every iteration of its loop; R14-readonly — nothing reachable from Find writes through the subject slice (which aliases the Lua string's bytes through unsafeFastStringToReadOnlyBytes), and that unsafe view is only ever handed to pm.Find or io.Writer.Write. " +
-			"NOT decided: match extents, captures, gsub assembly; run-time slice/index panics inside the matcher (e.g. a back-reference to a still-open capture).",
+			"R14-bytes — no function of package pm calls a rune-aware API (character classes are C-locale byte classes). NOT decided: match extents, captures, gsub assembly; run-time slice/index panics inside the matcher (e.g. a back-reference to a still-open capture).",
 		Trusted: []string{"io.Writer.Write does not modify its argument (io.Writer contract)"},
-		Rules:   []func(*Ctx){ruleExhaust, rulePmPanics, ruleDepth, ruleProgress, ruleReadonly},
+		Rules:   []func(*Ctx){ruleExhaust, rulePmPanics, ruleDepth, ruleProgress, ruleReadonly, rulePmBytes},
 	})
 }
 
@@ -216,6 +216,45 @@ func rulePmPanics(c *Ctx) {
 	}
 }
 
+// rulePmBytes: the matcher works on bytes in the C locale: no rune-aware API in package pm.
+func rulePmBytes(c *Ctx) {
+	const R = "R14-bytes"
+	c.floor(R, 10)
+	p := c.P
+	sp := p.SPkg("pm")
+	for _, fn := range p.srcFuncs {
+		if fn.Pkg != sp {
+			continue
+		}
+		c.touch(fn)
+		var bad []string
+		var first ssa.Instruction
+		allInstrs(fn, func(in ssa.Instruction) {
+			if pk, n, ok := stdCall(in); ok {
+				if runeAware[pk+"."+n] || pk == "unicode" || pk == "unicode/utf8" {
+					bad = append(bad, pk+"."+n)
+					if first == nil {
+						first = in
+					}
+				}
+			}
+			if r, ok := in.(*ssa.Range); ok {
+				if bt, ok := r.X.Type().Underlying().(*types.Basic); ok && bt.Info()&types.IsString != 0 {
+					bad = append(bad, "range over a string")
+					if first == nil {
+						first = in
+					}
+				}
+			}
+		})
+		if len(bad) == 0 {
+			c.ok(R, fname(fn), p.pos(fn.Pos()), "byte-wise")
+		} else {
+			c.bad(R, fname(fn), p.ipos(first), fmt.Sprintf("%s uses %s: character classes and pattern items are defined on bytes in the C locale; a Unicode predicate also accepts bytes such as 0x85 / 0xA0 (%%s) or decodes multi-byte sequences", fname(fn), strings.Join(bad, ", ")))
+		}
+	}
+}
+
 func ruleDepth(c *Ctx) {
 	const R = "R14-depth"
 	c.floor(R, 3)
@@ -384,8 +423,9 @@ func ruleProgress(c *Ctx) {
 	}
 	headF := p.Field("pm", "seqPattern", "MustHead")
 	nexit := 0
-	for b := range body {
-		if g.Cut[b] >= 0 || len(b.Succs) != 2 {
+	nother := 0
+	for _, b := range fn.Blocks {
+		if !body[b] || g.Cut[b] >= 0 || len(b.Succs) != 2 {
 			continue
 		}
 		iff, ok := b.Instrs[len(b.Instrs)-1].(*ssa.If)
@@ -413,8 +453,11 @@ func ruleProgress(c *Ctx) {
 					why = "anchored pattern (^): only the first position is tried"
 				}
 			}
-			key := fmt.Sprintf("Find:scan-exit#%d", nexit)
-			if why != "" {
+			key := ""
+			if why == "" {
+				nother++
+				key = fmt.Sprintf("Find:scan-exit:other#%d", nother)
+			} else {
 				key = "Find:scan-exit:" + strings.Fields(why)[0] + "-" + strings.Fields(why)[1]
 			}
 			c.check(why != "", R, key, p.ipos(iff), "the scan stops because: "+why, "Find's scan loop has an exit that is neither 'position beyond the end', 'match limit reached' nor 'anchored pattern': positions up to and including len(subject) are skipped, so gsub/gmatch lose matches (e.g. the empty match at the end after a match that consumed the rest)")
